@@ -190,14 +190,17 @@ def random_history(args) -> List[Tuple[str, str]]:
         # the same content inserted in the opposite order is a different input to T1 (adjacency lists follow the
         # iteration order): the etag must tell the two stores apart
         g = store.get_graph(GID)
-        twin = InMemoryGraphStore()
-        twin.ensure(GID)
-        twin.upsert_nodes(GID, list(reversed(list(g.nodes.values()))))
-        twin.upsert_edges(GID, list(reversed(list(g.edges.values()))))
-        g2 = twin.get_graph(GID)
-        if (list(g2.nodes) != list(g.nodes) or list(g2.edges) != list(g.edges)) and twin.version_etag(GID) == store.version_etag(GID):
-            fails.append(("EtagTracksState", f"random history {i}: the same content in a different iteration order "
-                                             f"({list(g.edges)} vs {list(g2.edges)}) has the same etag {store.version_etag(GID)}"))
+        for rev_nodes, rev_edges in ((False, True), (True, False)):
+            twin = InMemoryGraphStore()
+            twin.ensure(GID)
+            ns, es = list(g.nodes.values()), list(g.edges.values())
+            twin.upsert_nodes(GID, list(reversed(ns)) if rev_nodes else ns)
+            twin.upsert_edges(GID, list(reversed(es)) if rev_edges else es)
+            g2 = twin.get_graph(GID)
+            if (list(g2.nodes) != list(g.nodes) or list(g2.edges) != list(g.edges)) and twin.version_etag(GID) == store.version_etag(GID):
+                fails.append(("EtagTracksState", f"random history {i}: the same content in a different iteration order "
+                                                 f"(nodes {list(g.nodes)} vs {list(g2.nodes)}, edges {list(g.edges)} vs {list(g2.edges)}) has the same etag {store.version_etag(GID)}"))
+                break
     return fails
 
 
